@@ -6,6 +6,7 @@ from sa.absint import AV, INF, const
 from sa.astutil import (call_name, calls_in, dotted, norm, walk_no_nested, try_fold,
                         names_in, last_attr, joined_str_parts, format_fields, concat_str)
 from sa.loader import AnalysisError
+from sa.canon import canon
 from sa.symexpand import Expand, substitute, clone
 from sa.tables import Cfg
 from checks import common
@@ -166,7 +167,7 @@ def run(ctx):
     header_words = None
     for node in walk_no_nested(sec):
         if isinstance(node, ast.For) and isinstance(node.target, ast.Tuple) \
-                and len(node.target.elts) == 3 and norm(node.iter) == 'profile':
+                and len(node.target.elts) == 3 and 'get_charge_profile(' in canon(sec).text(node.iter):
             names = [norm(e) for e in node.target.elts]
             tagmap = dict(zip(names, row_tags))
             for nm in names[1:]:
